@@ -137,7 +137,120 @@ def r01_b(prog: Program, chk: Check) -> None:
     for kind in grammar("expr"):
         chk.ob("R01.b", f"name_check_visitor::NameCheckVisitor::visit_{kind}", kind in have, "pyanalyze/name_check_visitor.py", f"ast.{kind} has no visit_{kind}: the expression is typed as (void) instead of a type containing its value")
 
+# ----------------------------------------------------------------- R01.f
+def _int_eval(e: ast.AST, env: Dict[str, int]) -> int:
+    """Fold an integer expression over +,-,unary -, constants and the names /
+    attribute chains in env. Anything else: AnchorError."""
+    t = norm(e)
+    if t in env:
+        return env[t]
+    if isinstance(e, ast.Constant) and isinstance(e.value, int) and not isinstance(e.value, bool):
+        return e.value
+    if isinstance(e, ast.UnaryOp) and isinstance(e.op, ast.USub):
+        return -_int_eval(e.operand, env)
+    if isinstance(e, ast.UnaryOp) and isinstance(e.op, ast.Invert):
+        return ~_int_eval(e.operand, env)
+    if isinstance(e, ast.BinOp) and isinstance(e.op, (ast.Add, ast.Sub)):
+        l, r = _int_eval(e.left, env), _int_eval(e.right, env)
+        return l + r if isinstance(e.op, ast.Add) else l - r
+    if isinstance(e, ast.Call) and last_attr(e) == "abs" and len(e.args) == 1:
+        return abs(_int_eval(e.args[0], env))
+    raise AnchorError(f"index expression `{t}` is outside the folded fragment (+, -, ~, abs, constants)")
+
+
+def r01_f(prog: Program, chk: Check) -> None:
+    chk.rule(
+        "R01.f",
+        "constant index into a sequence with an unpacked part: counting from the front, index k selects prefix position k; "
+        "counting from the back, index k<0 selects reversed position -k-1; and the scan gives up at the first unpacked member before it compares",
+        floor=4,
+    )
+    m = "implementation"
+    outer = prog.func(m, "_sequence_common_getitem_impl")
+    loops = []
+    for n in ast.walk(outer):
+        if isinstance(n, ast.For) and isinstance(n.iter, ast.Call) and last_attr(n.iter) == "enumerate" and n.iter.args:
+            src = n.iter.args[0]
+            rev = isinstance(src, ast.Call) and last_attr(src) == "reversed"
+            inner = src.args[0] if rev and src.args else src  # type: ignore[union-attr]
+            if norm(inner).endswith(".members"):
+                loops.append((n, rev))
+    if len(loops) < 2 or {r for _, r in loops} != {True, False}:
+        raise AnchorError("_sequence_common_getitem_impl: forward and reversed scans over .members not found")
+    assigns = {}
+    for n in ast.walk(outer):
+        if isinstance(n, ast.Assign) and len(n.targets) == 1 and isinstance(n.targets[0], ast.Name):
+            assigns.setdefault(n.targets[0].id, []).append(n.value)
+    for loop, rev in loops:
+        tgt = loop.target
+        if not (isinstance(tgt, ast.Tuple) and isinstance(tgt.elts[0], ast.Name) and isinstance(tgt.elts[1], ast.Tuple)):
+            raise AnchorError("scan loop target is not `i, (is_many, member)`")
+        ivar = tgt.elts[0].id
+        many = tgt.elts[1].elts[0].id  # type: ignore[attr-defined]
+        side = "back" if rev else "front"
+        key = f"{m}::_sequence_common_getitem_impl::scan-from-{side}"
+        # give-up test precedes the comparison
+        pos_break = pos_cmp = None
+        cmp_node = None
+        for idx, st in enumerate(loop.body):
+            if isinstance(st, ast.If) and norm(st.test) == many and any(isinstance(x, (ast.Break, ast.Return)) for x in st.body):
+                pos_break = idx if pos_break is None else pos_break
+            if isinstance(st, ast.If) and isinstance(st.test, ast.Compare) and len(st.test.ops) == 1 and isinstance(st.test.ops[0], ast.Eq) and any(isinstance(x, ast.Return) for x in st.body):
+                l, r = st.test.left, st.test.comparators[0]
+                other = r if norm(l) == ivar else l if norm(r) == ivar else None
+                if other is not None:
+                    pos_cmp, cmp_node = idx, other
+        if pos_cmp is None or cmp_node is None:
+            raise AnchorError(f"scan from the {side}: no `if {ivar} == <index>: return member`")
+        chk.ob("R01.f", key + "::gives-up-at-unpack-first", pos_break is not None and pos_break < pos_cmp, prog.site(m, loop),
+               f"the scan from the {side} must stop at the first unpacked member before comparing positions; otherwise a member behind a variable-length part is returned for a fixed index")
+        expr = cmp_node
+        if isinstance(expr, ast.Name) and expr.id in assigns:
+            if len(assigns[expr.id]) != 1:
+                raise AnchorError(f"`{expr.id}` assigned more than once")
+            expr = assigns[expr.id][0]
+        ks = range(0, 5) if not rev else range(-1, -6, -1)
+        bad = []
+        for k in ks:
+            got = _int_eval(expr, {"key.val": k})
+            want = k if not rev else -k - 1
+            if got != want:
+                bad.append((k, got, want))
+        chk.ob("R01.f", key + "::position", not bad, prog.site(m, loop),
+               f"index arithmetic `{norm(expr)}`: " + ("ok" if not bad else "; ".join(f"t[{k}] selects position {g} from the {side}, Python selects {w}" for k, g, w in bad[:3])),
+               witness={"expr": norm(expr), "mismatches": bad})
+
+
+class _Renamed:
+    """Adapter: run a sibling property's rule under this property's rule id.
+    C01 states soundness `through narrowing ... and pattern matching`; the
+    flow-plumbing clauses of C02 (which constraint reaches which variable in
+    which branch) are necessary conditions of C01 as well."""
+
+    def __init__(self, chk: Check, mapping: Dict[str, str]) -> None:
+        self._chk = chk
+        self._map = mapping
+
+    def rule(self, rid: str, text: str, floor: int = 1) -> None:
+        self._chk.rule(self._map[rid], text + f"  [shared with C02 {rid}]", floor)
+
+    def ob(self, rule: str, key: str, ok: bool, site: str, reason: str, witness=None, nontrivial: bool = True) -> bool:
+        return self._chk.ob(self._map[rule], key, ok, site, reason, witness, nontrivial)
+
+    def __getattr__(self, name: str):
+        return getattr(self._chk, name)
+
+
+def r01_cde(prog: Program, chk: Check) -> None:
+    from . import c02
+
+    ad = _Renamed(chk, {"R02.g": "R01.c", "R02.h": "R01.d", "R02.i": "R01.e"})
+    c02.r02g(prog, ad)  # type: ignore[arg-type]
+    c02.r02hi(prog, ad)  # type: ignore[arg-type]
+
 
 def run(prog: Program, chk: Check) -> None:
     r01_a(prog, chk)
     r01_b(prog, chk)
+    r01_cde(prog, chk)
+    r01_f(prog, chk)
